@@ -406,7 +406,7 @@ def run(tier, seed, **opts):
         col.failures.extend(lst[:2])
     return col.result(
         bounds=(
-            f"{len(FIXED_CASES)} fixed hand-made cases + {n_cases} seeded cases; up to ~40 input scaffolds x <= 2 contigs; texel sizes {{1,2.5,10,33.3}}; painted scaffolds / "
+            f"{len(FIXED_CASES)} fixed hand-made cases + {n_cases} seeded cases; up to ~40 input scaffolds x <= 3 contigs (lengths 7-400, gaps 1-200); texel sizes {{1,2.5,10,33.3}}; painted scaffolds / "
             f"unloc pieces whose destination was identified and judged: {stats['judged']}; maps rejected with "
             f"TaggingError/ChrNamerError (allowed): {stats['rejected_tagging']}; single-haplotype={stats['single']} "
             f"two-haplotype={stats['two']}; cases failing only in a named class: "
